@@ -91,19 +91,47 @@ func escapeAgreement(r *core.Run) {
 		r.Fatal("anchor: parser.Lexer.lexEscape not found")
 		return
 	}
-	var lexSet map[rune]bool
+	// the runes lexEscape accepts after a backslash: everything the next symbol is compared
+	// with, in a switch over it or in == comparisons
+	lexSet := map[rune]bool{}
 	var lexIdents []string
+	isSym := rules.SymbolAtom(r.P, info, lfd)
+	comparisons := 0
+	addCmp := func(e ast.Expr) {
+		comparisons++
+		if k, ok := core.ConstInt(info, e); ok {
+			lexSet[rune(k)] = true
+		} else if id, ok := core.Unparen(e).(*ast.Ident); ok {
+			lexIdents = append(lexIdents, id.Name)
+		}
+	}
 	ast.Inspect(lfd.Body, func(n ast.Node) bool {
-		if sw, ok := n.(*ast.SwitchStmt); ok && lexSet == nil {
-			lexSet, lexIdents = caseRunes(info, sw, false)
+		switch x := n.(type) {
+		case *ast.SwitchStmt:
+			if x.Tag != nil && isSym(x.Tag) {
+				for _, cl := range x.Body.List {
+					for _, e := range cl.(*ast.CaseClause).List {
+						addCmp(e)
+					}
+				}
+			}
+		case *ast.BinaryExpr:
+			if x.Op == token.EQL || x.Op == token.NEQ {
+				switch {
+				case isSym(x.X):
+					addCmp(x.Y)
+				case isSym(x.Y):
+					addCmp(x.X)
+				}
+			}
 		}
 		return true
 	})
-	if lexSet == nil {
-		r.Fatal("lexEscape: no switch over the escaped character (unrecognised idiom)")
+	if comparisons == 0 {
+		r.Fatal("lexEscape: the escaped character is not compared with anything (unrecognised idiom)")
 		return
 	}
-	if len(lexIdents) == 1 { // the `quote` parameter
+	if len(lexIdents) > 0 { // the `quote` parameter
 		lexSet['"'] = true
 	}
 	// string openers: case '"' calling lexString in NextToken
@@ -118,7 +146,7 @@ func escapeAgreement(r *core.Run) {
 			calls := false
 			for _, st := range cc.Body {
 				ast.Inspect(st, func(m ast.Node) bool {
-					if c, ok := m.(*ast.CallExpr); ok && strings.HasSuffix(core.CalleeName(info, c), "Lexer).lexString") {
+					if c, ok := m.(*ast.CallExpr); ok && core.CalleeIs(info, c, parserRel, "Lexer.lexString") {
 						calls = true
 					}
 					return true
@@ -226,19 +254,49 @@ func escapeAgreement(r *core.Run) {
 	rfd, _ := r.P.FuncDecl(parserRel, "Lexer.lexRegex")
 	if rfd != nil {
 		o := r.Add("R-CONST/escapes", "parser.Lexer.lexRegex | escape set", rfd.Pos(), "regex escapes understood by the lexer")
-		n := 0
+		// what the character after a '/' is compared with
+		peekSet := map[rune]bool{}
+		isPeek := func(e ast.Expr) bool {
+			c, ok := core.Unparen(e).(*ast.CallExpr)
+			return ok && core.CalleeIs(info, c, parserRel, "Lexer.peek")
+		}
 		ast.Inspect(rfd.Body, func(nd ast.Node) bool {
-			if b, ok := nd.(*ast.BinaryExpr); ok && b.Op == token.EQL && strings.HasSuffix(core.ExprStr(b.X), "l.peek()") {
-				if k, ok := core.ConstInt(info, b.Y); ok && k == '/' {
-					n++
+			switch x := nd.(type) {
+			case *ast.BinaryExpr:
+				if x.Op == token.EQL || x.Op == token.NEQ {
+					var other ast.Expr
+					if isPeek(x.X) {
+						other = x.Y
+					} else if isPeek(x.Y) {
+						other = x.X
+					}
+					if other != nil {
+						if k, ok := core.ConstInt(info, other); ok {
+							peekSet[rune(k)] = true
+						} else {
+							peekSet[-1] = true
+						}
+					}
+				}
+			case *ast.SwitchStmt:
+				if x.Tag != nil && isPeek(x.Tag) {
+					for _, cl := range x.Body.List {
+						for _, e := range cl.(*ast.CaseClause).List {
+							if k, ok := core.ConstInt(info, e); ok {
+								peekSet[rune(k)] = true
+							} else {
+								peekSet[-1] = true
+							}
+						}
+					}
 				}
 			}
 			return true
 		})
-		if n == 1 {
+		if len(peekSet) == 1 && peekSet['/'] {
 			o.Auto("'//' → '/' only")
 		} else {
-			o.Fail("lexRegex no longer has exactly the '//' escape (%d peek comparisons with '/')", n)
+			o.Fail("lexRegex no longer has exactly the '//' escape (the character after a '/' is compared with %s)", runeSetStr(peekSet))
 		}
 	}
 	r.Floor("R-CONST/escapes", 7, "opener, five token kinds, regex escape")
@@ -702,7 +760,7 @@ func lexerPositions(r *core.Run) {
 				if e == nil || depth > 2 {
 					return false
 				}
-				if c, ok := core.Unparen(e).(*ast.CallExpr); ok && strings.HasSuffix(core.CalleeName(info, c), "Lexer).getPosition") {
+				if c, ok := core.Unparen(e).(*ast.CallExpr); ok && core.CalleeIs(info, c, parserRel, "Lexer.getPosition") {
 					return true
 				}
 				if strings.HasSuffix(aliasOf(info, in, e), ".getPosition()") {
@@ -771,7 +829,7 @@ func lexerPositions(r *core.Run) {
 				}
 				if isPosField {
 					o := r.Add("R-POS/lexer", fmt.Sprintf("parser.%s | writes %s", core.FuncName(fd), s), nd.Pos(), "writer of the lexer position")
-					if fd.Name.Name == "next" || fd.Name.Name == "NewLexer" {
+					if nx, _ := r.P.FuncDecl(parserRel, "Lexer.next"); fd == nx || fd.Name.Name == "NewLexer" {
 						o.Auto("inside Lexer.next")
 					} else {
 						o.Fail("the lexer position is modified outside Lexer.next")
@@ -796,51 +854,202 @@ func fmtDiffForms(r *core.Run) {
 	r.Rule("R-CONST/fmtdiff", "every per-fragment FmtDiff is {FromLine: <src>.Start.Line, ToLine: <src>.End.Line + 1} for the same source node; FmtDiffs' gap edits are {FromLine: 0 | lastEnd, ToLine: diff.FromLine} with lastEnd = diff.ToLine of the previous fragment, appended in fragment order; the LSP edit maps FromLine/ToLine to the range start/end lines with character 0")
 	pk := r.P.Pkg(parserRel)
 	info := pk.TypesInfo
-	n := 0
+	mainFd, _ := r.P.FuncDecl(parserRel, "FmtDiffs")
+	if mainFd == nil {
+		r.Fatal("anchor: parser.FmtDiffs not found")
+		return
+	}
+	isDiffT := func(t types.Type) bool { return t != nil && core.TypeStr(t) == parserRel+".FmtDiff" }
+	// construction sites of FmtDiff values: literals, with a constructor helper's
+	// parameters replaced by the arguments of each of its call sites
+	type site struct {
+		in       *ast.FuncDecl // function whose locals the expressions refer to
+		from, to ast.Expr
+		pos      token.Pos
+	}
+	var sites []site
+	paramIndex := func(fd *ast.FuncDecl, e ast.Expr) int {
+		id, ok := core.Unparen(e).(*ast.Ident)
+		if !ok {
+			return -1
+		}
+		i := 0
+		for _, f := range fd.Type.Params.List {
+			for _, nm := range f.Names {
+				if info.Defs[nm] == info.Uses[id] {
+					return i
+				}
+				i++
+			}
+		}
+		return -1
+	}
+	var expand func(fd *ast.FuncDecl, from, to ast.Expr, pos token.Pos, depth int)
+	expand = func(fd *ast.FuncDecl, from, to ast.Expr, pos token.Pos, depth int) {
+		fi, ti := -1, -1
+		if from != nil {
+			fi = paramIndex(fd, from)
+		}
+		if to != nil {
+			ti = paramIndex(fd, to)
+		}
+		if (fi < 0 && ti < 0) || depth <= 0 {
+			sites = append(sites, site{fd, from, to, pos})
+			return
+		}
+		fobj := info.Defs[fd.Name]
+		found := false
+		core.AllFuncDecls(pk, func(caller *ast.FuncDecl) {
+			if caller.Body == nil {
+				return
+			}
+			ast.Inspect(caller.Body, func(n ast.Node) bool {
+				c, ok := n.(*ast.CallExpr)
+				if !ok {
+					return true
+				}
+				if fn := core.CalleeFunc(info, c); fn == nil || fn.Origin() != fobj {
+					return true
+				}
+				found = true
+				f2, t2 := from, to
+				if fi >= 0 && fi < len(c.Args) {
+					f2 = c.Args[fi]
+				}
+				if ti >= 0 && ti < len(c.Args) {
+					t2 = c.Args[ti]
+				}
+				if (fi >= 0) != (ti >= 0) {
+					// one bound from the helper, one from the caller: judged as written in the helper
+					sites = append(sites, site{fd, from, to, pos})
+					return true
+				}
+				expand(caller, f2, t2, c.Pos(), depth-1)
+				return true
+			})
+		})
+		if !found {
+			sites = append(sites, site{fd, from, to, pos})
+		}
+	}
 	core.AllFuncDecls(pk, func(fd *ast.FuncDecl) {
-		if !strings.HasSuffix(r.P.Fset.Position(fd.Pos()).Filename, "/fmt.go") {
+		if fd.Body == nil {
 			return
 		}
 		ast.Inspect(fd.Body, func(nd ast.Node) bool {
 			cl, ok := nd.(*ast.CompositeLit)
-			if !ok || core.TypeStr(info.TypeOf(cl)) != parserRel+".FmtDiff" {
+			if !ok || !isDiffT(info.TypeOf(cl)) {
 				return true
 			}
-			vals := map[string]string{}
+			var from, to ast.Expr
 			for _, e := range cl.Elts {
 				if kv, ok := e.(*ast.KeyValueExpr); ok {
-					vals[core.ExprStr(kv.Key)] = core.ExprStr(kv.Value)
+					switch core.ExprStr(kv.Key) {
+					case "FromLine":
+						from = kv.Value
+					case "ToLine":
+						to = kv.Value
+					}
 				}
 			}
-			n++
-			o := r.Add("R-CONST/fmtdiff", fmt.Sprintf("parser.%s | FmtDiff{From: %s, To: %s}", core.FuncName(fd), vals["FromLine"], vals["ToLine"]), cl.Pos(), "edit line range")
-			from, to := vals["FromLine"], vals["ToLine"]
-			switch {
-			case strings.HasSuffix(from, ".Start.Line") && to == strings.TrimSuffix(from, ".Start.Line")+".End.Line + 1":
-				o.Auto("fragment edit: [Start.Line, End.Line+1) of the same node")
-			case fd.Name.Name == "FmtDiffs" && (from == "0" || from == "lastEnd") && to == "diff.FromLine":
-				o.Auto("gap edit up to the next fragment")
-			default:
-				o.Fail("edit range [%s, %s) is not [node.Start.Line, node.End.Line+1) of one node (or a gap edit): applying the edits no longer reproduces the formatter's output", from, to)
+			if from == nil && to == nil {
+				// filled by assignment: x := FmtDiff{}; x.FromLine = …
+				return true
 			}
+			expand(fd, from, to, cl.Pos(), 2)
 			return true
 		})
 	})
-	// lastEnd = diff.ToLine
-	fd, _ := r.P.FuncDecl(parserRel, "FmtDiffs")
-	if fd != nil {
-		o := r.Add("R-CONST/fmtdiff", "parser.FmtDiffs | lastEnd update", fd.Pos(), "gap tracking")
-		ok := false
-		ast.Inspect(fd.Body, func(nd ast.Node) bool {
-			if as, isA := nd.(*ast.AssignStmt); isA && len(as.Lhs) == 1 && core.ExprStr(as.Lhs[0]) == "lastEnd" && core.ExprStr(as.Rhs[0]) == "diff.ToLine" {
-				ok = true
+	// the loop of FmtDiffs over the fragments and its gap-tracking variable
+	var loop *ast.RangeStmt
+	ast.Inspect(mainFd.Body, func(nd ast.Node) bool {
+		if rs, ok := nd.(*ast.RangeStmt); ok && loop == nil {
+			if sl, ok := info.TypeOf(rs.X).Underlying().(*types.Slice); ok && isDiffT(sl.Elem()) {
+				loop = rs
+			}
+		}
+		return true
+	})
+	var rv types.Object
+	if loop != nil {
+		if id, ok := loop.Value.(*ast.Ident); ok {
+			rv = info.Defs[id]
+		}
+	}
+	isRvField := func(e ast.Expr, field string) bool {
+		s, ok := core.Unparen(e).(*ast.SelectorExpr)
+		if !ok || s.Sel.Name != field || rv == nil {
+			return false
+		}
+		id, ok := core.Unparen(s.X).(*ast.Ident)
+		return ok && info.Uses[id] == rv
+	}
+	// variables advanced to <fragment>.ToLine inside the loop
+	tracked := map[types.Object]bool{}
+	if loop != nil {
+		ast.Inspect(loop.Body, func(nd ast.Node) bool {
+			if as, ok := nd.(*ast.AssignStmt); ok && len(as.Lhs) == 1 && len(as.Rhs) == 1 && isRvField(as.Rhs[0], "ToLine") {
+				if id, ok := as.Lhs[0].(*ast.Ident); ok && info.Uses[id] != nil {
+					tracked[info.Uses[id]] = true
+				}
 			}
 			return true
 		})
-		if ok {
-			o.Auto("lastEnd = diff.ToLine")
-		} else {
-			o.Fail("lastEnd is not advanced to diff.ToLine")
+	}
+	usedTracked := false
+	for _, st := range sites {
+		from, to := exprOrNone(st.from), exprOrNone(st.to)
+		o := r.Add("R-CONST/fmtdiff", fmt.Sprintf("parser.%s | FmtDiff{From: %s, To: %s}", core.FuncName(st.in), core.NormExpr(info, st.from), core.NormExpr(info, st.to)), st.pos, "edit line range")
+		nodeOf := func(e ast.Expr, field string) string {
+			// X.<field>.Line
+			s, ok := core.Unparen(e).(*ast.SelectorExpr)
+			if !ok || s.Sel.Name != "Line" {
+				return ""
+			}
+			s2, ok := core.Unparen(s.X).(*ast.SelectorExpr)
+			if !ok || s2.Sel.Name != field {
+				return ""
+			}
+			return core.ExprStr(s2.X)
+		}
+		fragNode := ""
+		if st.from != nil && st.to != nil {
+			if b, ok := core.Unparen(st.to).(*ast.BinaryExpr); ok && b.Op == token.ADD {
+				if k, isC := core.ConstInt(info, b.Y); isC && k == 1 {
+					if a, e := nodeOf(st.from, "Start"), nodeOf(b.X, "End"); a != "" && a == e {
+						fragNode = a
+					}
+				}
+			}
+		}
+		gap := false
+		if st.in == mainFd && st.to != nil && st.from != nil && loop != nil && loop.Body.Pos() <= st.pos && st.pos < loop.Body.End() && isRvField(st.to, "FromLine") {
+			if k, isC := core.ConstInt(info, st.from); isC && k == 0 {
+				gap = true
+			} else if id, ok := core.Unparen(st.from).(*ast.Ident); ok && tracked[info.Uses[id]] {
+				gap, usedTracked = true, true
+			}
+		}
+		switch {
+		case fragNode != "":
+			o.Auto("fragment edit: [Start.Line, End.Line+1) of the same node")
+		case gap:
+			o.Auto("gap edit from 0 or the end of the previous fragment up to the next fragment")
+		default:
+			o.Fail("edit range [%s, %s) is not [node.Start.Line, node.End.Line+1) of one node (or a gap edit from 0 / the previous fragment's ToLine to the next fragment's FromLine): applying the edits no longer reproduces the formatter's output", from, to)
+		}
+	}
+	{
+		o := r.Add("R-CONST/fmtdiff", "parser.FmtDiffs | lastEnd update", mainFd.Pos(), "gap tracking")
+		switch {
+		case loop == nil:
+			o.Fail("no loop over the fragments found in FmtDiffs")
+		case len(tracked) == 0:
+			o.Fail("no variable is advanced to the ToLine of the fragment in hand: gaps cannot be measured from the end of the previous fragment")
+		case !usedTracked:
+			o.Fail("the variable advanced to the fragment's ToLine is not the start of any gap edit")
+		default:
+			o.Auto("a variable is advanced to the fragment's ToLine in the loop and starts the gap edit")
 		}
 	}
 	// LSP mapping
@@ -894,7 +1103,7 @@ func fmtDiffForms(r *core.Run) {
 	} else {
 		o.Fail("LSP range is Start{Line: %s, Character: %s} End{Line: %s, Character: %s}, expected FromLine/0 and ToLine/0", got["Start"], chars["Start"], got["End"], chars["End"])
 	}
-	r.Floor("R-CONST/fmtdiff", 5, "two fragment forms, two gap forms, LSP mapping")
+	r.Floor("R-CONST/fmtdiff", 5, "fragment form(s), two gap forms, gap tracking, LSP mapping")
 }
 
 // tokenTextOpaque (R-CONST/opaque): once a token has been rendered
@@ -935,12 +1144,12 @@ func tokenTextOpaque(r *core.Run) {
 			}
 		}
 		ast.Inspect(fd.Body, func(nd ast.Node) bool {
-			if c, ok := nd.(*ast.CallExpr); ok && strings.HasSuffix(core.CalleeName(info, c), "parser.tokenSource") {
+			if c, ok := nd.(*ast.CallExpr); ok && core.CalleeIs(info, c, parserRel, "tokenSource") {
 				assembles = true
 			}
 			return true
 		})
-		if !assembles || fd.Name.Name == "tokenSource" || fd.Name.Name == "quoteString" {
+		if ts, _ := r.P.FuncDecl(parserRel, "tokenSource"); !assembles || fd == ts || fd.Name.Name == "quoteString" {
 			return
 		}
 		n++
@@ -1082,17 +1291,56 @@ func editsDisjoint(r *core.Run) {
 		o.Fail("the function %s applied to the fragments is not in the parser package", core.ExprStr(call.Fun))
 		return
 	}
-	excl := func(cond ast.Expr, branch bool) bool {
-		if branch {
-			return false
-		}
-		s := core.ExprStr(cond)
-		if b, ok := core.Unparen(cond).(*ast.BinaryExpr); ok {
-			if b.Op == token.LSS && strings.HasSuffix(core.ExprStr(b.X), ".FromLine") && strings.HasSuffix(core.ExprStr(b.Y), ".ToLine") {
-				return true
+	// excl: taking this branch of the condition implies that the output is still empty or
+	// that the fragment in hand does not start before the previous edit ends
+	isField := func(e ast.Expr, f string) bool {
+		s, ok := core.Unparen(e).(*ast.SelectorExpr)
+		return ok && s.Sel.Name == f && strings.HasSuffix(core.TypeStr(info.TypeOf(s.X)), "FmtDiff")
+	}
+	isLen := func(e ast.Expr) bool {
+		c, ok := core.Unparen(e).(*ast.CallExpr)
+		return ok && core.CalleeName(info, c) == "builtin.len" && len(c.Args) == 1 && strings.Contains(core.TypeStr(info.TypeOf(c.Args[0])), "FmtDiff")
+	}
+	var excl func(cond ast.Expr, branch bool) bool
+	excl = func(cond ast.Expr, branch bool) bool {
+		switch x := core.Unparen(cond).(type) {
+		case *ast.UnaryExpr:
+			if x.Op == token.NOT {
+				return excl(x.X, !branch)
 			}
-			if b.Op == token.GTR && strings.HasPrefix(s, "len(") {
-				return true
+		case *ast.BinaryExpr:
+			switch x.Op {
+			case token.LOR:
+				if branch {
+					return excl(x.X, true) && excl(x.Y, true)
+				}
+				return excl(x.X, false) || excl(x.Y, false)
+			case token.LAND:
+				if branch {
+					return excl(x.X, true) || excl(x.Y, true)
+				}
+				return excl(x.X, false) && excl(x.Y, false)
+			}
+			op := x.Op
+			l, rr := x.X, x.Y
+			// normalise to "FromLine op ToLine" and "len op const"
+			flip := map[token.Token]token.Token{token.LSS: token.GTR, token.GTR: token.LSS, token.LEQ: token.GEQ, token.GEQ: token.LEQ, token.EQL: token.EQL, token.NEQ: token.NEQ}
+			if isField(l, "ToLine") && isField(rr, "FromLine") || !isLen(l) && isLen(rr) {
+				l, rr, op = rr, l, flip[op]
+			}
+			if !branch {
+				op = map[token.Token]token.Token{token.LSS: token.GEQ, token.GEQ: token.LSS, token.GTR: token.LEQ, token.LEQ: token.GTR, token.EQL: token.NEQ, token.NEQ: token.EQL}[op]
+			}
+			switch {
+			case isField(l, "FromLine") && isField(rr, "ToLine"):
+				return op == token.GEQ || op == token.GTR || op == token.EQL
+			case isLen(l):
+				k, ok := core.ConstInt(info, rr)
+				if !ok {
+					return false
+				}
+				// known empty: len == 0, len <= 0, len < 1
+				return op == token.EQL && k == 0 || op == token.LEQ && k == 0 || op == token.LSS && k == 1
 			}
 		}
 		return false
